@@ -4,6 +4,7 @@ import (
 	"encoding/json"
 	"fmt"
 	"runtime"
+	"sync/atomic"
 	"time"
 
 	"github.com/libsv/go-bt/v2"
@@ -42,22 +43,46 @@ func hasSigOp(s []byte) bool {
 // returns runs f and reports whether it came back within the (very generous) limit; a run that does
 // not return is abandoned in its goroutine. Wall-clock noise under load stays far below the limit.
 func returns(f func()) bool {
+	if tooManyHangs() {
+		// five runs have already failed to return (each reported): the remaining runs are not started - one
+		// abandoned goroutine per run and minutes of waiting each would only delay the report
+		c.Tally("not-run/after-five-runs-that-did-not-return")
+		return true
+	}
 	done := make(chan struct{})
 	go func() { defer close(done); f() }()
 	select {
 	case <-done:
 		return true
-	case <-time.After(180 * time.Second):
+	case <-time.After(hangLimit()):
+		atomic.AddInt32(&hangs, 1)
 		return false
 	}
 }
+
+// hangs counts the runs that did not return. The first one is given the full (very generous) 180 s, so that load
+// never looks like a hang; once a hang has been seen the limit drops, and after five the remaining runs are skipped.
+var hangs int32
+
+func hangLimit() time.Duration {
+	switch n := atomic.LoadInt32(&hangs); {
+	case n == 0:
+		return 180 * time.Second
+	case n < 3:
+		return 60 * time.Second
+	default:
+		return 20 * time.Second
+	}
+}
+
+func tooManyHangs() bool { return atomic.LoadInt32(&hangs) >= 5 }
 
 // goOnly runs a program on the implementation only (no model case): no panic, returns.
 func goOnly(p *interpgen.Program) {
 	var obs, msg string
 	var r2 interpgen.Result
 	if !returns(func() { obs, msg = interpgen.RunPlain(p); r2 = interpgen.Run(p, false) }) {
-		c.Violate("Engine.Execute/does-not-return", "no result after 180 s", p)
+		c.Violate("Engine.Execute/does-not-return", "no result within the limit (180 s for the first run that hangs)", p)
 		return
 	}
 	c.Tally(p.Kind + "/go-only/" + obs)
@@ -78,7 +103,7 @@ func emitOrGoOnly(p *interpgen.Program) {
 		return
 	}
 	if !returns(func() { emit(p) }) {
-		c.Violate("Engine.Execute/does-not-return", "no result after 180 s", p)
+		c.Violate("Engine.Execute/does-not-return", "no result within the limit (180 s for the first run that hangs)", p)
 	}
 }
 
